@@ -28,7 +28,7 @@ func checkCallArgs(fn *object.Function, argc int) error {
 		default:
 			msg = fmt.Sprintf("%s takes %d arguments (%d given)", msg, paramsCount, argc)
 		}
-		return errz.ArgsErrorf(msg)
+		return errz.ArgsErrorf("%s", msg)
 	}
 	return nil
 }
